@@ -258,6 +258,12 @@ m("C06-benign-pm-delete-let", PMA, "        self.tree\n            .delete(index
 m("C07-benign-get-proof-let", PUB, "        let merkle_proof = self.tree.proof(index)?;", "        let lookup = self.tree.proof(index);\n        let merkle_proof = lookup?;", "C07")
 m("C20-benign-magic-check-ne", STO, "    if !magic.eq(WITNESSCALC_GRAPH_MAGIC) {", "    if magic != *WITNESSCALC_GRAPH_MAGIC {", "C20")
 m("C05-benign-inputs-collect-two-steps", CALC, "    let inputs: HashMap<String, Vec<U256>> = inputs\n        .into_iter()\n        .map(|(key, value)| (key, value.iter().map(fr_to_u256).collect()))\n        .collect();", "    let converted = inputs\n        .into_iter()\n        .map(|(key, value)| (key, value.iter().map(fr_to_u256).collect()));\n    let inputs: HashMap<String, Vec<U256>> = converted.collect();", "C05")
+FE = "        .for_each(|v| identity_path_index.push(Fr::from(*v)));\n\n    Ok(["
+m("C01-direction-bit-inverted", PROTO, FE, "        .for_each(|v| identity_path_index.push(Fr::from(1 - (*v & 1))));\n\n    Ok([", "C01")
+m("C01-direction-bit-from-bool", PROTO, FE, "        .for_each(|v| identity_path_index.push(Fr::from(*v > 1)));\n\n    Ok([", "C01")
+FE4 = "    rln_witness\n        .identity_path_index\n        .iter()\n" + FE
+m("C01-benign-direction-loop", PROTO, FE4, "    for v in rln_witness.identity_path_index.iter() {\n        identity_path_index.push(Fr::from(*v));\n    }\n\n    Ok([", "C01")
+m("C01-direction-loop-skips-first", PROTO, FE4, "    for v in rln_witness.identity_path_index.iter().skip(1) {\n        identity_path_index.push(Fr::from(*v));\n    }\n    identity_path_index.push(Fr::from(0u8));\n\n    Ok([", "C01")
 m("C01-benign-prove-let-proof", PUB, "        let proof = generate_proof(&self.proving_key, &rln_witness, &self.graph_data)?;\n\n        // Note: we export a serialization of ark-groth16::Proof not semaphore::Proof\n        // This proof is compressed, i.e. 128 bytes long\n        proof.serialize_compressed(&mut output_data)?;\n        output_data.write_all(&serialize_proof_values(&proof_values))?;", "        let proof = generate_proof(&self.proving_key, &rln_witness, &self.graph_data)?;\n\n        // Note: we export a serialization of ark-groth16::Proof not semaphore::Proof\n        // This proof is compressed, i.e. 128 bytes long\n        proof.serialize_compressed(&mut output_data)?;\n        let values = serialize_proof_values(&proof_values);\n        output_data.write_all(&values)?;", "C01")
 m("C04-benign-prove-let-values", PUB, "        let proof = generate_proof(&self.proving_key, &rln_witness, &self.graph_data)?;\n\n        // Note: we export a serialization of ark-groth16::Proof not semaphore::Proof\n        // This proof is compressed, i.e. 128 bytes long\n        proof.serialize_compressed(&mut output_data)?;\n        output_data.write_all(&serialize_proof_values(&proof_values))?;", "        let proof = generate_proof(&self.proving_key, &rln_witness, &self.graph_data)?;\n\n        // Note: we export a serialization of ark-groth16::Proof not semaphore::Proof\n        // This proof is compressed, i.e. 128 bytes long\n        proof.serialize_compressed(&mut output_data)?;\n        let values = serialize_proof_values(&proof_values);\n        output_data.write_all(&values)?;", "C04")
 
